@@ -362,4 +362,74 @@ let eval_with (pid : string) (smp : n -> n list option) inp obs : verdict =
   { default_verdict with model_obs; spec_ok = Some si.ok; model_spec_ok = sm.ok && defs_ok; nontrivial = si.nontriv;
     note = (if not defs_ok then "fc_graph <> FcSpec.fc_spec on this DAG" else if si.ok then "" else "spec(" ^ si.why ^ ") fails on impl") }
 
-let main (pid : string) = Drv.run (eval_with pid sample)
+(* ---------- STORE glue cases (model/AbftStore.v): the small abft.Store codecs driven directly ----------
+   input  : <mix> STORE rootsNum rootsFrames ; CF e f | GC e | LD f | GL | ES ep id w .. | GE | AR spf f v id | GR f
+   output : ok | skip | nodef | f<n> | l<live> l<fresh> | e<ep> id:w .. / e<ep> id:w .. | g v:id .. *)
+let u32 s = let z = Z.of_string s in if Z.sign z < 0 || Z.geq z (zpow2 32) then failwith "range" else n_of_z z
+let u256 s = let z = Z.of_string s in if Z.sign z < 0 || Z.geq z (zpow2 256) then failwith "range" else n_of_z z
+let rec pairs32 = function a :: b :: r -> (u32 a, u32 b) :: pairs32 r | [] -> [] | _ -> failwith "odd"
+let store_op (g : string list) : sop option =
+  try (match g with
+    | ["CF"; e; f] -> Some (SoCF (u256 e, u32 f))
+    | ["GC"; e] -> Some (SoGC (u256 e))
+    | ["LD"; f] -> Some (SoLD (u32 f))
+    | ["GL"] -> Some SoGL
+    | "ES" :: ep :: r -> Some (SoES (u32 ep, pairs32 r))
+    | ["GE"] -> Some SoGE
+    | ["AR"; spf; f; v; id] -> Some (SoAR (u32 spf, u32 f, u32 v, u256 id))
+    | ["GR"; f] -> Some (SoGR (u32 f))
+    | _ -> None)
+  with _ -> None
+let pw l = List.map (fun (i, w) -> tok_of_n i ^ ":" ^ tok_of_n w) l
+let sobs_toks = function
+  | SbOk -> ["ok"] | SbSkip -> ["skip"]
+  | SbN x -> ["N" ^ tok_of_n x]
+  | SbES (ep, v) -> let h = ("e" ^ tok_of_n ep) :: pw v in h @ ["/"] @ h
+  | SbRoots l -> "g" :: pw l
+let sobs_print (o : sop) (b : sobs) = match o, b with
+  | SoGC _, SbN x -> ["f" ^ tok_of_n x]
+  | SoGL, SbN x -> ["l" ^ tok_of_n x; "l" ^ tok_of_n x]
+  | _ -> sobs_toks b
+let unpw l = List.map (fun p -> match String.split_on_char ':' p with [i; w] -> (nz i, nz w) | _ -> raise Bad_obs) l
+let sobs_parse (o : sop) (g : string list) : sobs =
+  match o, g with
+  | _, ["ok"] -> SbOk
+  | _, ["skip"] -> SbSkip
+  | SoGC _, [f] when String.length f > 1 && f.[0] = 'f' -> SbN (nz (tl1 f))
+  | SoGL, [a; b] when a = b && String.length a > 1 && a.[0] = 'l' -> SbN (nz (tl1 a))
+  | SoGE, _ ->
+    (match split_on "/" g with
+     | [(e :: v); h2] when (e :: v) = h2 && String.length e > 1 && e.[0] = 'e' -> SbES (nz (tl1 e), unpw v)
+     | _ -> raise Bad_obs)
+  | SoGR _, "g" :: r -> SbRoots (unpw r)
+  | _ -> raise Bad_obs
+let is_store inp = match inp with _ :: "STORE" :: _ -> true | _ -> false
+let eval_store inp obs : verdict =
+  let groups = split_on ";" inp in
+  let els = List.map store_op (List.filter (fun g -> g <> []) (List.tl groups)) in
+  let ops = List.filter_map (fun x -> x) els in
+  let mtr = List.combine ops (srun store_start ops) in
+  let mo = ref mtr in
+  let mg = List.map (function
+    | None -> ["nodef"]
+    | Some _ -> (match !mo with (o, b) :: r -> mo := r; sobs_print o b | [] -> ["?"])) els in
+  let flat gs = List.concat (List.mapi (fun i g -> if i = 0 then g else ";" :: g) gs) in
+  let ig = if obs = [] then [] else split_on ";" obs in
+  let spec_ok =
+    (try
+      let rec pair es gs = match es, gs with
+        | [], [] -> []
+        | None :: er, g :: gr -> if g = ["nodef"] then pair er gr else raise Bad_obs
+        | Some o :: er, g :: gr -> (o, sobs_parse o g) :: pair er gr
+        | _ -> raise Bad_obs in
+      store_trace astore_start (pair els ig)
+    with Bad_obs | Failure _ | Invalid_argument _ -> false) in
+  let big = List.exists (function
+    | SoCF (_, f) | SoLD f -> Z.geq (z_of_n f) (Z.of_int 256)
+    | SoAR (_, f, v, _) -> Z.geq (z_of_n f) (Z.of_int 256) || Z.geq (z_of_n v) (Z.of_int 256)
+    | SoES (ep, r) -> Z.geq (z_of_n ep) (Z.of_int 256) || List.exists (fun (i, w) -> Z.geq (z_of_n i) (Z.of_int 256) || Z.geq (z_of_n w) (Z.of_int 256)) r
+    | _ -> false) ops in
+  { default_verdict with model_obs = flat mg; spec_ok = Some spec_ok; model_spec_ok = store_trace astore_start mtr; nontrivial = big;
+    note = (if spec_ok then "" else "spec(store_trace: every read returns what was written) fails on impl") }
+
+let main (pid : string) = Drv.run (fun inp obs -> if is_store inp then eval_store inp obs else eval_with pid sample inp obs)
